@@ -1,7 +1,7 @@
 /-
   RoModel.MultiB.GroupBy — GroupBy / GroupByI / GroupByWithContext / GroupByIWithContext
   (operator_transformations.go:311-389). One source; groups are unicast subjects, the downstream
-  value is the group's index (creation order). A recorder subscribes to every group `delay` ticks
+  value is the group's index (creation order). A recorder subscribes to every group `delay` notifications
   after it was emitted (`delay = 0`: inside the `destination.Next` call), at the latest at the end
   of the run.
 -/
@@ -55,7 +55,7 @@ def groupByStep [DecidableEq κ] (key : α → Nat → κ) (delay : Nat) (s : Gr
     let r := groupCloseAll s.groups
     { st := { s with groups := r.1, mapped := false }, emits := [.complete], sdrops := r.2 }
 
-/-- after every processed entry of the interleaving: recorders whose delay has elapsed subscribe -/
+/-- after every notification the source has issued: recorders whose delay has elapsed subscribe -/
 def groupTick (s : GroupSt α κ) : GroupSt α κ :=
   let p := s.pending.map (fun x => (x.1, x.2 - 1))
   let due := (p.filter (fun x => x.2 == 0)).map (·.1)
